@@ -5,3 +5,4 @@ cd "$(dirname "$0")/harness"
 export CARGO_NET_OFFLINE=true
 cargo build --profile checked --bins 2>&1 | tail -3
 cargo build --release --bins 2>&1 | tail -3
+cargo build --profile unopt --bins 2>&1 | tail -3
